@@ -28,4 +28,22 @@ ReportCount(c, d, x) == Cardinality({j \in 1..Len(c) : Sees(c, d, j, x) /\ InCor
 (* historical *)
 Reported_v0416(c, d, x) == {Local(c, d, i, x) + StartOf(c, i) + 2 * d * (i - 1) - d : i \in {j \in 1..Len(c) : Sees(c, d, j, x)}}
 ReportCount_v0416(c, d, x) == Cardinality({j \in 1..Len(c) : Sees(c, d, j, x)})
+(* dask merges chunks smaller than the overlap depth before overlapping.  The blocks that are processed are those of the
+   MERGED partition m (a coarsening of the input partition c); the repaired code derives cores and offsets from m.
+   Named hazard "core from input chunks": block i of m is trimmed and offset with extent/start of chunk i of c. *)
+RECURSIVE Coarsenings(_)
+Coarsenings(c) == IF Len(c) <= 1 THEN {c}
+                  ELSE LET rest == Coarsenings(Tail(c)) IN
+                       {<<c[1]>> \o r : r \in rest} \cup {<<c[1] + r[1]>> \o Tail(r) : r \in rest}
+LegalMerges(c, d) == {m \in Coarsenings(c) : \A i \in 1..Len(m) : m[i] >= d \/ Len(m) = 1}
+ReportedFromInputChunks(c, m, d, x) ==
+  {Local(m, d, i, x) - d + StartOf(c, i) : i \in {j \in 1..Len(m) : Sees(m, d, j, x) /\ 0 <= Local(m, d, j, x) - d /\ Local(m, d, j, x) - d < c[j]}}
+
+(* exclusion region of find_maxima: a BALL of radius r (r10 = 10 r) in pixels, not the enclosing cube *)
+CeilDiv10(r10) == (r10 + 9) \div 10
+InBall(o, r10) == 100 * (o[1]*o[1] + o[2]*o[2] + o[3]*o[3]) <= r10 * r10
+InCube(o, r10) == \A a \in 1..3 : o[a] <= CeilDiv10(r10) /\ -o[a] <= CeilDiv10(r10)
+(* offsets between two particles that are farther apart than the exclusion distance but inside the enclosing cube *)
+DiagonalOffsets(r10) == LET k == CeilDiv10(r10) IN {o \in (0..k) \X (0..k) \X (0..k) : InCube(o, r10) /\ ~InBall(o, r10)}
+CornerOffset(r10) == LET k == CeilDiv10(r10) IN <<k, k, k>>
 =============================================================================
